@@ -130,7 +130,10 @@ func c3CmpTy(t types.Type) types.Type {
 }
 
 func core3Build(a []string) *ir.Func {
-	named := map[string]*types.StructType{}
+	return core3BuildIn(map[string]*types.StructType{}, a)
+}
+
+func core3BuildIn(named map[string]*types.StructType, a []string) *ir.Func {
 	ret := (&tyParser{s: a[0], named: named}).ty()
 	var params []*ir.Param
 	locals := map[c3ident]value.Value{}
